@@ -143,6 +143,7 @@ struct Judged {
     fail: Option<String>,
     detail: String,
     delivered_bytes: Option<Vec<u8>>,
+    #[allow(dead_code)]
     steps: usize,
     saw_xover_noncore: bool,
     saw_peering: bool,
